@@ -305,12 +305,35 @@ def main_check(prop, tier, seed, replay=None):
         disagreements = []
         if proof_info.get("build_rc", 1) == 0:
             ctx.lean = LeanDriver(prop)
-            disagreements = mod.correspond(ctx) or []
+            try:
+                disagreements = mod.correspond(ctx) or []
+            except Exception as e:
+                # The harness could not even exercise the real code the way it does on the unchanged tree
+                # (constructor raised, port disappeared, width changed, worker died, ...).  That is a broken
+                # correspondence, to be reported - not a silent machinery error.
+                tb = traceback.format_exc()
+                print(tb, flush=True)
+                disagreements = [{"kind": "correspondence-exception", "instance": None,
+                                  "what": "the correspondence run raised %r; the model/implementation tie no longer checks" % (e,),
+                                  "traceback": tb[-3000:]}]
+                try:
+                    ctx.lean.quit()
+                except Exception:
+                    pass
+                ctx.lean = LeanDriver(prop)
         else:
             ctx.log("driver/model does not build; running implementation-side monitors only")
         # 4. findings
         if hasattr(mod, "probes"):
-            for fid, still_fails, what in mod.probes(ctx):
+            try:
+                probe_results = list(mod.probes(ctx))
+            except Exception as e:
+                tb = traceback.format_exc()
+                print(tb, flush=True)
+                probe_results = []
+                disagreements.append({"kind": "probe-exception", "instance": None,
+                                      "what": "the finding probes raised %r" % (e,), "traceback": tb[-3000:]})
+            for fid, still_fails, what in probe_results:
                 entry = next((e for e in ctx.known if e.get("id") == fid), None)
                 if entry is None:
                     if still_fails:
@@ -329,7 +352,12 @@ def main_check(prop, tier, seed, replay=None):
         if proof_broken or disagreements:
             found = None
             if hasattr(mod, "search"):
-                found = mod.search(ctx, disagreements, proof_info)
+                try:
+                    found = mod.search(ctx, [d for d in disagreements if not isinstance(d, dict)], proof_info)
+                except Exception as e:
+                    traceback.print_exc()
+                    ctx.cov.notes.append("failing-input search raised %r" % (e,))
+                    found = None
             payload = {"property": prop, "tier": tier, "seed": seed,
                        "broken_obligations": proof_info.get("failed", []),
                        "disagreements": [d.to_json() if hasattr(d, "to_json") else d for d in disagreements[:5]]}
